@@ -109,7 +109,7 @@ PROPS = {
         assumptions=PROC_ASSUME['C03'],
     ),
     'C04': dict(
-        lean=['Props.C04', 'Props.C04Spec', 'Props.C04Window', 'Props.FactsProc'],
+        lean=['Props.C04', 'Props.C04Spec', 'Props.PipeC04', 'Props.C04Window', 'Props.FactsProc'],
         streams=['processor', 'window', 'fs', 'e2e'],
         project={'processor': r'^< (md|m\.|re|rs|ret|panic)', 'fs': r'^< gate', 'e2e': r'^$'}, rule=PROC_RULE, trusted=PROC_TRUSTED,
         assumptions=PROC_ASSUME['C04'],
@@ -160,8 +160,9 @@ PROPS = {
         assumptions=['same event skeleton in both histories', 'dynamic threshold: no reset before/inside the FFC period (KNOWN-FINDING F7 otherwise)'],
     ),
     'C15': dict(
-        lean=['Props.C15', 'Props.FactsProc', 'Props.Pipeline'],
-        streams=['detector', 'e2e'],
+        lean=['Props.C15', 'Props.C11Thr', 'Props.FactsProc', 'Props.Pipeline'],
+        streams=['detector', 'e2e', 'throttle'],
+        project={'throttle': r'^$'},
         rule=DET_RULE, trusted=DET_TRUSTED,
         assumptions=['LowerLaw: new < bg -> float32(new) - w < float32(bg), true for the non-negative weights that occur', 'the float64 mean is within one count of the exact mean (validated by the monitor, not proved)', 'the clause "background and threshold stored with a recording are those at the trigger" is covered by the e2e stream'],
     ),
@@ -177,7 +178,7 @@ PROPS = {
         assumptions=['time stamps of recordings in one directory are pairwise distinct (enforced by the F9 fix)', 'constant-recordings/ is not the output directory proper'],
     ),
     'C14': dict(
-        lean=['Props.C14', 'Props.FactsWiring', 'Props.Pipeline'],
+        lean=['Props.C14', 'Props.C14Daemons', 'Props.FactsWiring', 'Props.Pipeline'],
         streams=['e2e', 'leptond', 'leptondloop'],
         rule=E2E_RULE + '; leptond stream: the real sendCameraSpecs of the camera daemon run on a lepton3.Lepton3 whose I2C command interface is a register-level fake (serials up to 2^63-1, '
              'both part numbers and unknown ones, firmware bytes 0..255, failing serial / firmware queries), sent over a unix socket and read with the real ReadHeaderInfo and with the Lean decoder',
@@ -193,7 +194,7 @@ PROPS = {
         assumptions=['in-range settings (fps, preview-secs < 256; strings <= 255 bytes; motion YAML <= 255 bytes)', 'throttle refill disabled in e2e runs (min-refill 100 h, real clock)'],
     ),
     'C18': dict(
-        lean=['Props.C18', 'Props.FactsWiring'],
+        lean=['Props.C18', 'Props.C18Roll', 'Props.FactsWiring'],
         streams=['writer'],
         rule='socket byte streams (YAML header + frames of 1 B .. 39 KiB, 0..700 frames, optionally cut inside the last frame) written in random segments with stalls, '
              'GOMAXPROCS 1/2/4/16, through net.Pipe into the real thermal-writer handleConn + writer goroutines; the file is read back byte for byte; '
